@@ -37,6 +37,17 @@ CHECKS = [
           "compare by identity; listeners use only the public API; 'exactly the declared keys' from len-equality + inclusion is the "
           "finite-set pigeonhole step (not re-proved by SMT). Sequence obligations left open by z3 are discharged by cvc5.",
   "technique": "deductive verification: abstract map/sequence view, snapshot loop invariant with ghost delivery sequence, callback contract; z3 + cvc5"},
+ {"property_id": "C01",
+  "text": "All public operations of EventListHeap are verified against contracts over the abstract view 'set of entries (time,-priority,id,event)': "
+          "representation invariant = binary-heap order on the array + well-formed, duplicate-free entries; add/pop/remove/clear state the whole "
+          "view (exactly that entry enters/leaves, every other stays) and re-establish the invariant; peek/pop return the root which is the "
+          "minimum of all pending entries (lemma heap_root_min, strong induction, SMT); size/is_empty/contains equal the view's. SimEvent "
+          "comparison operators: strict total order agreeing with the key order (lemma over the operator contracts). All histories by "
+          "induction over the invariant.",
+  "design_ref": "DESIGN.md section 6 C01",
+  "note": COMMON_NOTE + " Assumed: heapq.heappush/heappop/heapify contracts; sequence membership/remove-first lemmas over the heap array; "
+          "events are immutable while listed; valid events have non-NaN times of one time class (float model; Duration/int times embed).",
+  "technique": "deductive verification: heap representation invariant against an abstract set view, inductive min-lemma, dependency contracts for heapq; z3 + cvc5"},
 ]
 _claimed = {c["property_id"] for c in CHECKS}
 NOT_APPLICABLE = [
